@@ -120,6 +120,23 @@ func main() {
 		core.Fatalf("no TLC schedule could be followed by the real code (%d tried): the gates no longer bind Metrics.tla to RecordTokenization", deviated)
 	}
 
+	// 2a. schedules in which the recorder of the true extreme loses three swaps in a row: the shape that gives up ends
+	// with a wrong total on each of them (that is how TLC finds them); the real code must end exact
+	gu := core.MustTLC(core.TLCOpts{Spec: "Metrics", Cfg: "Metrics_giveup.cfg", Timeout: 5 * time.Minute})
+	gs := gu.Stat("the shape that gives up after three lost swaps, four recorders: the schedules that end with a wrong smallest / largest size (replayed on the real code, which must end exact)")
+	gs.ExpectViol = "ExactAtQuiescence (schedules printed instead of stopping at the first)"
+	run.AddTLC(gs)
+	if len(gu.Cases) < 10 {
+		core.Fatalf("Metrics_giveup.cfg printed %d schedules", len(gu.Cases))
+	}
+	for _, c := range gu.Cases {
+		var sc schedCase
+		if err := json.Unmarshal([]byte(c), &sc); err != nil {
+			core.Fatalf("bad schedule json %q: %v", c, err)
+		}
+		replaySchedule(run, &sc) // the code leaves the schedule where the model gives up; the totals are judged
+	}
+
 	// 2b. the per-message error table: bursts of first occurrences
 	errorBursts(run, tier)
 
